@@ -27,6 +27,7 @@
 #include "Neigh/ANeigh.hpp"
 #include "Neigh/NeighUnique.hpp"
 #include "Neigh/NeighMoving.hpp"
+#include "Neigh/NeighBench.hpp"
 #include "Estimation/CalcKriging.hpp"
 #include "Covariances/CovFactory.hpp"
 #include "Covariances/ACovFunc.hpp"
@@ -199,7 +200,7 @@ struct KCase
   std::string key(const std::string& what) const { return ((block && gridRotated()) ? "block-rotgrid:" : "") + what + ":" + variant(); }
   std::string variant() const
   {
-    return std::string(family()) + ":" + (moving ? "moving" : "unique") + ":" + (block ? "block" : "point");
+    return std::string(family()) + ":" + (moving == 2 ? "bench" : moving ? "moving" : "unique") + ":" + (block ? "block" : "point");
   }
   template<class A> void io(A& a)
   {
@@ -612,6 +613,8 @@ inline bool buildWorld(const KCase& c, World& w, Ctx& ctx)
   ctx.at("Neigh");
   if (!c.moving)
     w.neigh.reset(NeighUnique::create());
+  else if (c.moving == 2)
+    w.neigh.reset(NeighBench::create(false, c.radius)); // bench along the last coordinate, half-width = radius
   else
   {
     VectorDouble coeffs, angles;
@@ -1001,6 +1004,19 @@ inline NbRef refNeigh(const KCase& c, const double* x0, int exclude = -1)
       if (adm[(size_t)i]) R.nb.push_back(i);
     return R;
   }
+  if (c.moving == 2)
+  {
+    // bench: every admissible sample whose last coordinate lies within +-radius of the target's
+    int ld = c.ndim - 1;
+    for (int i = 0; i < n; i++)
+    {
+      if (!adm[(size_t)i]) continue;
+      double d = std::fabs(c.data.at(i, ld) - x0[ld]);
+      if (std::fabs(d - c.radius) <= 1e-9 * (d + c.radius)) R.ambiguous = true;
+      if (d <= c.radius) R.nb.push_back(i);
+    }
+    return R;
+  }
   vfgeo::NeighParams P;
   P.ndim = c.ndim;
   P.hasRadius = c.hasRadius != 0;
@@ -1075,7 +1091,7 @@ inline void labelCase(const KCase& c, Ctx& ctx)
   ctx.label(std::string("family:") + c.family());
   ctx.label("ndim:" + std::to_string(c.ndim));
   ctx.label("nvar:" + std::to_string(c.nvar));
-  ctx.label(c.moving ? (c.nsect > 1 ? "neigh:moving+sectors" : "neigh:moving") : "neigh:unique");
+  ctx.label(c.moving == 2 ? "neigh:bench" : c.moving ? (c.nsect > 1 ? "neigh:moving+sectors" : "neigh:moving") : "neigh:unique");
   ctx.label(c.block ? (c.gridRotated() ? "target:block-rotated" : "target:block") : "target:point");
   ctx.label(c.heterotopic() ? "topo:heterotopic" : "topo:isotopic");
   if (!c.verr.empty()) ctx.label("verr");
